@@ -29,6 +29,10 @@ private:
   // To prevent useless computations
   double ga1_;
 
+  // The restrictions applied so far: the domain starts at the offset or at the
+  // lower end of the restrictions, whichever is larger, and must follow the offset.
+  IntervalConstraint restriction_;
+
 public:
   std::string getName() const {return "Gamma";}
 
@@ -63,6 +67,8 @@ public:
   GammaDiscreteDistribution* clone() const { return new GammaDiscreteDistribution(*this); }
 
   void fireParameterChanged(const ParameterList& parameters);
+
+  void restrictToConstraint(const ConstraintInterface& c);
 
   double randC() const
   {
